@@ -4,6 +4,8 @@ use std::panic;
 use taskchampion_sync_server_core::*;
 use uuid::Uuid;
 
+mod http;
+
 /// C12: drive the private urgency kernels through the public API on the real in-memory backend.
 fn urgency(kernel: &str, target: i128, measure: i128) -> String {
     let r = panic::catch_unwind(|| {
@@ -76,6 +78,11 @@ fn main() {
                 "ids_run2": out[1].ids.iter().map(|x| format!("{:032x}", x)).collect::<Vec<_>>(),
             });
             println!("{}", o);
+        }
+        Some("http") => {
+            let txt = std::fs::read_to_string(&args[2]).expect("replay file");
+            let j: serde_json::Value = serde_json::from_str(&txt).expect("json");
+            println!("{}", http::replay(&j));
         }
         _ => {
             eprintln!("usage: vreplay urgency <versions|days> <target> <measure> | vreplay k <scenario> <file>");
